@@ -91,3 +91,5 @@ def run(ctx) -> None:
     shapes.normal_form_rule(ctx, Is, "C09.S1.normal-form-of-every-listed-operand-form")
     shapes.operand_split_rule(ctx, Is, "C09.S2.commas-split-between-operands-only")
     shapes.line_record_rule(ctx, Is, "C09.S3.line-to-record")
+    if ctx.tier == "thorough":
+        shapes.thorough_line_rule(ctx, Is, "C09.S3.line-to-record")
